@@ -83,7 +83,7 @@ class TlcResult:
         m = re.search(r"Action property (\S+) is violated", out)
         if m:
             self.violated = m.group(1)
-        if "Temporal properties were violated" in out:
+        if "Temporal properties were violated" in out or re.search(r"Temporal property \S+ (was|is) violated", out):
             self.violated = self.violated or "temporal"
         if "Deadlock reached" in out:
             self.violated = self.violated or "deadlock"
